@@ -1,9 +1,11 @@
 #!/usr/bin/env python3
-"""Regenerates MANIFEST.json from tools/manifest_entries.json (one entry per claimed property) and validates it."""
+"""Regenerates MANIFEST.json from tools/manifest_global.json + tools/manifest.d/Cxx.json (one file per claimed property) and validates it."""
 import json, sys, subprocess
 from pathlib import Path
 VERIF = Path(__file__).resolve().parent.parent
-ent = json.loads((VERIF / "tools" / "manifest_entries.json").read_text())
+ent = json.loads((VERIF / "tools" / "manifest_global.json").read_text())
+ent["checks"] = {p.stem: json.loads(p.read_text()) for p in sorted((VERIF / "tools" / "manifest.d").glob("C*.json"))}
+ent.setdefault("not_applicable", {})
 props = [json.loads(l)["id"] for l in (VERIF / "properties.jsonl").read_text().splitlines() if l.strip()]
 checks = []
 for pid in props:
